@@ -7,3 +7,28 @@ package server
 // ---- read limits (C13): the limiter channels are sized from the configuration
 //@ func New
 //@   ensures [limiters-sized] result != nil && result.catLimiter != nil && result.tailLimiter != nil && result.catLimiter.cap == config.Server.MaxConcurrentCats && result.tailLimiter.cap == config.Server.MaxConcurrentTails
+
+// ---- connection slots (C14) ---------------------------------------------------
+// currentConnections is the number of connections that passed the handshake
+// and have not ended. Per activation of handleConnection the net effect on it
+// is zero (the slot taken after the handshake is given back when the
+// connection ends, on every path), and nobody else gives slots back.
+//@ func (*stats).incrementConnections
+//@   assigns s.currentConnections, s.lifetimeConnections, s.mutex
+//@   ensures [plus-one] s.currentConnections == old(s.currentConnections) + 1
+//@ func (*stats).decrementConnections
+//@   callers-only (*Server).handleConnection
+//@   assigns s.currentConnections, s.mutex
+//@   ensures [minus-one] s.currentConnections == old(s.currentConnections) - 1
+//@ func (*stats).logServerStats
+//@   assigns s.mutex
+//@ func (*stats).hasConnections
+//@   assigns s.mutex
+//@   ensures [def] result == (s.currentConnections > 0)
+//@ func (*stats).serverLimitExceeded
+//@   assigns s.mutex
+//@   ensures [limit] isnil(result) == (s.currentConnections < config.Server.MaxConnections)
+//@ func (*Server).handleConnection
+//@   ensures [slot-returned] s.stats.currentConnections == old(s.stats.currentConnections)
+//@ func (*Server).listenerLoop
+//@   at-call handleConnection [below-limit] s.stats.currentConnections < config.Server.MaxConnections
